@@ -77,8 +77,12 @@ def _check_str(tier, seed):
         y = "".join(rng.choice(alpha) for _ in range(rng.randint(0, 5)))
         for c in ("/", "\\"):
             n += 1
-            if (x + c + y).lower() != x.lower() + c + y.lower():
+            if (x + c + y).lower() != x.lower() + c + y.lower() or (c + y).lower() != c + y.lower():
                 failures.append("lower separator homomorphism on %r %r %r" % (x, c, y))
+        if len((x + y).lower()) != len(x.lower()) + len(y.lower()) or len(x.lower()) < len(x):
+            failures.append("lower length additivity on %r %r" % (x, y))
+        if (x.lower() in ("/", "\\")) != (x in ("/", "\\")):
+            failures.append("lower maps a non-separator to a separator: %r" % x)
     # all single code points: lower never creates or removes a separator
     for cp in range(0x110000):
         if 0xD800 <= cp <= 0xDFFF:
